@@ -27,7 +27,8 @@ RULE = ("cases = seeded random walks (VERIF_SEED) of the real generated archetyp
         "crashing the last replica; 10% of the dictated either-branches are the ones that look disabled (abort path); >= 2 distinct keys in 5 of 6 walks; "
         "plus the failover family (props/c14.py failover_scenario: scripted prefix = the primary crashes at a chosen attempt of sndReplicaReqLoop / "
         "rcvReplicaRespLoop with chosen progress of every backup, the writer slow, another client's Get / Put of the other key first at the new primary, "
-        "3-4 replicas, two keys; systematic grid corpus/C14/failover_family.json + seeded random members); plus corpus/C14 explicit schedules "
+        "3-4 replicas, two keys; also a double failover on 4 replicas (the second leader crashes mid-sync) and a dead low-id backup with a slow live "
+        "backup and no primary crash; systematic grid corpus/C14/failover_family.json (48) + seeded random members); plus corpus/C14 explicit schedules "
         "(Coq witnesses). Non-trivial = the walk contains a crash, a failover sync, or a state with non-empty queues at >= 2 nodes; distinct by canonical schedule text.")
 
 LABELS_R = {"replicaLoop": "ReplicaLoop", "syncPrimary": "SyncPrimary", "sndSyncReqLoop": "SndSyncReqLoop",
@@ -407,8 +408,12 @@ def failover_scenario(P):
             sc.append({"op": "run", "p": p, "until": until, "min": mn, "max": mx})
     def step(p, fail=0, alt=-1):
         sc.append({"op": "step", "p": p, "alt": alt, "fail": fail})
+    dead = P.get("dead", [])                  # backups that crash at their very first label (replicaLoop)
     for r in range(1, nr + 1):
-        run(r, "rcvMsg", 0, 4)
+        if r in dead:
+            step(r, fail=1); step(r)
+        else:
+            run(r, "rcvMsg", 0, 4)
     if P.get("pre"):
         run(X, "rcvResp", 1, 3)
         run(1, "rcvReplicaRespLoop", 1, nr + 4)
@@ -429,6 +434,24 @@ def failover_scenario(P):
             for b in range(2, j):
                 run(b, "rcvMsg", 1, depth.get(b, 0))
         step(1, fail=1)                       # sends to j and crashes
+    elif P["mode"] == "deadbackup":
+        # no primary crash: a backup with a small id is dead, the live backups are slow (depth), the primary runs alone:
+        # it must not reach sndResp before every live backup has acknowledged
+        run(1, "rcvReplicaRespLoop", 1, nr + 2)
+        for b in range(2, nr + 1):
+            if b not in dead:
+                run(b, "rcvMsg", 1, depth.get(b, 0))
+        run(1, "sndResp", 0, nr + 6)
+    elif P["mode"] == "double":
+        # double failover: 1 crashes with the send to replica 2; 2 applies the PUT_REQ, starts its failover sync and crashes
+        # with the SYNC_REQ to replica j2; the replicas that got the SYNC_REQ handle it; the next leader must synchronise too
+        step(1, fail=1); step(1)
+        run(2, "sndSyncReqLoop", 1, 6)
+        for i in range(1, P["j2"]):
+            step(2)
+        step(2, fail=1); step(2)
+        for b in range(3, P["j2"] + 1):
+            run(b, "syncPrimary", 1, 4)
     else:
         run(1, "rcvReplicaRespLoop", 1, nr + 2)
         for b in P.get("order", list(range(2, nr + 1))):
@@ -436,12 +459,13 @@ def failover_scenario(P):
         for i in range(P.get("acks", 0)):
             step(1)
         step(1, fail=1)                       # takes one more acknowledgement (or notices a dead backup) and crashes
-    step(1)                                   # failLabel
+    if P["mode"] in ("snd", "rcv"):
+        step(1)                               # failLabel
     for b, d in P.get("after", []):
         run(b, "rcvMsg", 1, d)
     run(P.get("y", nr + 2), "rcvResp", 1, 3)
     if P.get("fast"):
-        run(2, "sndResp", 0, 16)
+        run({"double": 3, "deadbackup": 1}.get(P["mode"], 2), "sndResp", 0, 20)
     w = dict(P.get("walk", {}))
     walk = {"seed": w.get("seed", 1), "n": w.get("n", 160), "pcrash": w.get("pcrash", 0.0), "pcrashp": w.get("pcrashp", 0.05),
             "pwrong": w.get("pwrong", 0.05), "frozen": [X], "frozen_n": w.get("frozen_n", 60)}
@@ -466,6 +490,13 @@ def failover_case(rng, tier):
     for i in range(rng.randint(1, 4)):
         k = rng.choice(keys)
         P["tail"].append({"typ": 3, "key": k, "value": "t%d" % i} if rng.random() < 0.4 else {"typ": 1, "key": k})
+    r = rng.random()
+    if r < 0.15 and nr == 4:
+        P.update({"mode": "double", "j2": rng.randint(3, 4), "pre": False})
+    elif r < 0.3:
+        live = rng.randint(3, nr)
+        P.update({"mode": "deadbackup", "dead": [b for b in range(2, live) if rng.random() < 0.7] or [2],
+                  "depth": {b: rng.choice([0, 0, 1, 2]) for b in range(2, nr + 1)}})
     P["walk"] = {"seed": rng.randrange(1, 2 ** 31), "n": rng.randint(100, 200) if tier == "quick" else rng.randint(200, 600),
                  "pcrash": rng.choice([0.0, 0.0, 0.01]), "pcrashp": rng.choice([0.0, 0.05, 0.15]), "frozen_n": rng.randint(40, 120)}
     return failover_scenario(P)
@@ -493,6 +524,16 @@ def failover_grid():
                         if d == 0:
                             P["depth"] = {"2": 4}   # only the future primary has applied and acknowledged
                     out.append(P)
+    # double failover (4 replicas): the third leader learned the latest Put only through a SYNC_REQ
+    for j2 in (3, 4):
+        for follow in ("get", "put_other"):
+            out.append({"nr": 4, "nc": 2, "follow": follow, "mode": "double", "j2": j2, "fast": True,
+                        "walk": {"seed": 1000 + len(out), "n": 80, "frozen_n": 40}})
+    # a dead backup with a smaller id than a slow live backup: the primary must wait for the live one
+    for nr, dead in ((3, [2]), (4, [2]), (4, [3]), (4, [2, 3])):
+        for pre in (False, True):
+            out.append({"nr": nr, "nc": 2, "follow": "put_other", "mode": "deadbackup", "dead": dead, "pre": pre, "fast": True,
+                        "depth": {}, "walk": {"seed": 1000 + len(out), "n": 80, "frozen_n": 0}})
     return out
 
 
@@ -567,7 +608,12 @@ def analyse(case, res, ctx, stats):
             stats["asserts"] += 1
             sig = "assert:%s" % s["label"]
             if s["label"] in ("rcvSyncRespLoop", "rcvReplicaRespLoop") and restarts:
-                sig += ":after-sync-restart"
+                # the known deviation: a SYNC_RESP of a restarted failover sync is at the head of the leader's response queue
+                # (an aborted attempt leaves the queue as it was); any other failing assertion is a new violation
+                q = dec(st["_raw"].get("net:%d:2" % s["p"], {"f": []}))
+                head = (q.get("queue") or [None])[0] if isinstance(q, dict) else None
+                if isinstance(head, dict) and head.get("typ") == 6:
+                    sig += ":after-sync-restart"
             fails.append((sig, "assertion failed in %s of process %d at step %d: %s" % (s["label"], s["p"], i + 1, s.get("err", "")[:200])))
         elif s["out"] not in ("abort",):
             fails.append(("outcome:%s:%s" % (s["out"], s["label"]), "step %d of process %d (%s): %s %s" % (i + 1, s["p"], s["label"], s["out"], s.get("err", "")[:200])))
